@@ -501,3 +501,91 @@ Definition first_fatal (t : list event) : option fatal :=
   | EvFatal f :: _ => Some f
   | _ => None
   end.
+
+(* ------------------------------------------------------------------------------------------ *)
+(** * The parser object across parses: SecurityManager, the scanner's cached limit / counter, scanReset.
+    XMLScanner::setSecurityManager caches the manager's limit and zeroes the counter; every scanner's scanReset
+    refreshes the cached limit from the manager and zeroes the counter again at the start of each parse;
+    useScanner creates a fresh scanner and copies the settings with setParseSettings (-> setSecurityManager). *)
+Record pstate := {
+  ps_mgr : nat;            (* the SecurityManager object's current entity expansion limit *)
+  ps_installed : bool;     (* fSecurityManager != 0 in the scanner *)
+  ps_limit : nat;          (* fEntityExpansionLimit (cached copy) *)
+  ps_count : nat }.        (* fEntityExpansionCount *)
+
+(** a fresh parser; the manager object's own limit is set by the first HSetLimit of a history *)
+Definition ps0 : pstate := {| ps_mgr := 0; ps_installed := false; ps_limit := 0; ps_count := 0 |}.
+
+Inductive hop :=
+| HInstall (b : bool)        (* parser.setSecurityManager(b ? &mgr : 0) *)
+| HSetLimit (l : nat)        (* mgr.setEntityExpansionLimit(l) *)
+| HUseScanner (sc : scanner) (* parser.useScanner(name) *)
+| HParse (x : doc).
+
+Definition with_limit (c : cfg) (l : option nat) : cfg :=
+  {| c_scanner := c_scanner c; c_val := c_val c; c_doSchema := c_doSchema c; c_loadSchema := c_loadSchema c;
+     c_loadDTD := c_loadDTD c; c_disableDefault := c_disableDefault c; c_stdUri := c_stdUri c; c_limit := l |}.
+Definition with_scanner (c : cfg) (sc : scanner) : cfg :=
+  {| c_scanner := sc; c_val := c_val c; c_doSchema := c_doSchema c; c_loadSchema := c_loadSchema c;
+     c_loadDTD := c_loadDTD c; c_disableDefault := c_disableDefault c; c_stdUri := c_stdUri c; c_limit := c_limit c |}.
+
+Definition st_from (cnt : nat) : st :=
+  {| s_tr := []; s_ge := []; s_pe := []; s_cnt := cnt; s_halt := false; s_ns := []; s_seen := [] |}.
+
+(** [run_fuel] started with the counter the scanner object currently holds *)
+Definition run_fuel_from (d : nat) (c : cfg) (rs : option resolver) (fs : filesys) (cnt : nat) (x : doc) : st :=
+  let nd := no_dtd x in
+  let s1 := match d_doctype x with
+            | Some dt => scan_doctype d c rs fs nd (d_sys x) dt (st_from cnt)
+            | None => st_from cnt
+            end in
+  let s2 := scan_atts d c rs fs nd (d_sys x) (d_atts x) s1 in
+  let s3 := if schema_scanner c then scan_hints d c rs fs (d_sys x) (d_hints x) s2 else s2 in
+  content d c rs fs nd false (d_sys x) None [] (d_body x) s3.
+
+(** XMLScanner::setSecurityManager *)
+Definition ps_set_manager (b : bool) (p : pstate) : pstate :=
+  if b then {| ps_mgr := ps_mgr p; ps_installed := true; ps_limit := ps_mgr p; ps_count := 0 |}
+  else {| ps_mgr := ps_mgr p; ps_installed := false; ps_limit := ps_limit p; ps_count := ps_count p |}.
+(** scanReset: "reset security-related things if necessary" *)
+Definition ps_scan_reset (p : pstate) : pstate :=
+  if ps_installed p then {| ps_mgr := ps_mgr p; ps_installed := true; ps_limit := ps_mgr p; ps_count := 0 |} else p.
+(** a new scanner object (constructor: limit 0, count 0) that receives the settings of the old one *)
+Definition ps_new_scanner (p : pstate) : pstate :=
+  ps_set_manager (ps_installed p) {| ps_mgr := ps_mgr p; ps_installed := false; ps_limit := 0; ps_count := 0 |}.
+
+Definition parse_with (reset : pstate -> pstate) (c : cfg) (rs : option resolver) (fs : filesys) (p : pstate) (x : doc)
+  : st * pstate :=
+  let p1 := reset p in
+  (* without a manager the code never touches the counter (`fSecurityManager != 0 && ++count > limit`): the
+     model's run then counts from zero on its own and the object's counter stays what it was *)
+  let s := run_fuel_from default_fuel (with_limit c (if ps_installed p1 then Some (ps_limit p1) else None)) rs fs
+                         (if ps_installed p1 then ps_count p1 else O) x in
+  (s, {| ps_mgr := ps_mgr p1; ps_installed := ps_installed p1; ps_limit := ps_limit p1;
+         ps_count := if ps_installed p1 then s_cnt s else ps_count p1 |}).
+
+Definition parse_step := parse_with ps_scan_reset.
+
+Fixpoint run_hist_with (reset : pstate -> pstate) (c : cfg) (rs : option resolver) (fs : filesys) (p : pstate)
+  (ops : list hop) : list st :=
+  match ops with
+  | [] => []
+  | HInstall b :: r => run_hist_with reset c rs fs (ps_set_manager b p) r
+  | HSetLimit l :: r =>
+    run_hist_with reset c rs fs
+      {| ps_mgr := l; ps_installed := ps_installed p; ps_limit := ps_limit p; ps_count := ps_count p |} r
+  | HUseScanner sc :: r => run_hist_with reset (with_scanner c sc) rs fs (ps_new_scanner p) r
+  | HParse x :: r => let '(s, p') := parse_with reset c rs fs p x in s :: run_hist_with reset c rs fs p' r
+  end.
+Definition run_hist := run_hist_with ps_scan_reset.
+
+(** what the property demands: parse k is judged against the limit in force at its start, counting from zero;
+    only (scanner, manager installed?, manager's limit) of the history matter *)
+Fixpoint hist_spec (c : cfg) (rs : option resolver) (fs : filesys) (inst : bool) (mgr : nat) (ops : list hop) : list st :=
+  match ops with
+  | [] => []
+  | HInstall b :: r => hist_spec c rs fs b mgr r
+  | HSetLimit l :: r => hist_spec c rs fs inst l r
+  | HUseScanner sc :: r => hist_spec (with_scanner c sc) rs fs inst mgr r
+  | HParse x :: r => run (with_limit c (if inst then Some mgr else None)) rs fs x :: hist_spec c rs fs inst mgr r
+  end.
